@@ -565,6 +565,7 @@ fn commitment_signed_probe(a: &mut Vec<i128>) -> String {
 /// survive iff that block is still in the chain (d <= k).
 fn preimage_after_conf_reorg_probe(a: &mut Vec<i128>) -> String {
 	let (k, d) = (a[0] as u32, a[1] as u32);
+	let own = a.len() > 2 && a[2] != 0; // 1: node 1's OWN commitment confirms instead (it force-closes)
 	let chanmon_cfgs = create_chanmon_cfgs(2);
 	let node_cfgs = create_node_cfgs(2, &chanmon_cfgs);
 	let node_chanmgrs = create_node_chanmgrs(2, &node_cfgs, &[None, None]);
@@ -575,7 +576,15 @@ fn preimage_after_conf_reorg_probe(a: &mut Vec<i128>) -> String {
 	let chan_id = chan.2;
 	send_payment(&nodes[0], &[&nodes[1]], 10_000_000);
 	let (preimage, _, _, _) = route_payment(&nodes[0], &[&nodes[1]], 3_000_000);
-	let commitment = {
+	let commitment = if own {
+		let peer = nodes[0].node.get_our_node_id();
+		nodes[1].node.force_close_broadcasting_latest_txn(&chan_id, &peer, "probe".to_string()).unwrap();
+		let _ = nodes[1].node.get_and_clear_pending_msg_events();
+		let _ = nodes[1].node.get_and_clear_pending_events();
+		nodes[1].chain_monitor.added_monitors.lock().unwrap().clear();
+		let mon = nodes[1].chain_monitor.chain_monitor.get_monitor(chan_id).unwrap();
+		mon.unsafe_get_latest_holder_commitment_txn(&nodes[1].logger)[0].clone()
+	} else {
 		let mon = nodes[0].chain_monitor.chain_monitor.get_monitor(chan_id).unwrap();
 		mon.unsafe_get_latest_holder_commitment_txn(&nodes[0].logger)[0].clone()
 	};
@@ -599,6 +608,13 @@ fn preimage_after_conf_reorg_probe(a: &mut Vec<i128>) -> String {
 		disconnect_blocks(&nodes[1], d);
 	}
 	let after = tracked(&nodes);
+	if a.len() > 3 && a[3] > 0 {
+		// the chain grows again: is the claim back?
+		connect_blocks(&nodes[1], a[3] as u32);
+		let again = tracked(&nodes);
+		core::mem::forget(nodes);
+		return format!("{} {} {}", before as u8, after as u8, again as u8);
+	}
 	core::mem::forget(nodes);
 	format!("{} {}", before as u8, after as u8)
 }
@@ -2396,6 +2412,118 @@ fn phantom_fulfill_battery(_a: &mut Vec<i128>) -> String {
 	}
 }
 
+/// closing_fee_touch_probe: a cooperative close in which the funder's maximum closing fee is exactly the fundee's minimum:
+/// the two ranges share one fee, so the close must go through at that fee and pay each side its balance less only
+/// that fee. The test utilities and the assertions below check every step; output `1`.
+fn closing_fee_touch_probe(_a: &mut Vec<i128>) -> String {
+	use lightning::chain::chaininterface::ConfirmationTarget;
+	use lightning::events::ClosureReason;
+	use lightning::ln::msgs::{BaseMessageHandler, ChannelMessageHandler, MessageSendEvent};
+
+	// The funder's maximum closing fee is exactly the fundee's minimum closing fee: the ranges
+	// overlap in a single value and the cooperative close must succeed at that fee, paying each
+	// side its balance less only that fee (taken from the funder).
+	let chanmon_cfgs = create_chanmon_cfgs(2);
+	let node_cfgs = create_node_cfgs(2, &chanmon_cfgs);
+	let node_chanmgrs = create_node_chanmgrs(2, &node_cfgs, &[None, None]);
+	let nodes = create_network(2, &node_cfgs, &node_chanmgrs);
+	let node_a_id = nodes[0].node.get_our_node_id();
+	let node_b_id = nodes[1].node.get_our_node_id();
+	let chan = create_announced_chan_between_nodes_with_value(&nodes, 0, 1, 100_000, 0);
+	send_payment(&nodes[0], &[&nodes[1]], 10_000_000);
+
+	nodes[0].node.close_channel(&chan.2, &node_b_id).unwrap();
+	let as_shutdown = lightning::get_event_msg!(nodes[0], MessageSendEvent::SendShutdown, node_b_id);
+	nodes[1].node.handle_shutdown(node_a_id, &as_shutdown);
+	let bs_shutdown = lightning::get_event_msg!(nodes[1], MessageSendEvent::SendShutdown, node_a_id);
+	nodes[0].node.handle_shutdown(node_b_id, &bs_shutdown);
+	let as_closing = lightning::get_event_msg!(nodes[0], MessageSendEvent::SendClosingSigned, node_b_id);
+	let as_range = as_closing.fee_range.clone().unwrap();
+
+	// Weight of the closing transaction (see get_closing_transaction_weight).
+	let w = 426
+		+ (9 + as_shutdown.scriptpubkey.len() as u64) * 4
+		+ (9 + bs_shutdown.scriptpubkey.len() as u64) * 4;
+	assert_eq!(253 * w / 1000, as_range.min_fee_satoshis);
+	// Pick B's minimum closing feerate so that B's minimum fee equals A's maximum fee.
+	let feerate = (as_range.max_fee_satoshis * 1000 + w - 1) / w;
+	assert_eq!(feerate * w / 1000, as_range.max_fee_satoshis);
+	chanmon_cfgs[1]
+		.fee_estimator
+		.target_override
+		.lock()
+		.unwrap()
+		.insert(ConfirmationTarget::ChannelCloseMinimum, feerate as u32);
+
+	nodes[1].node.handle_closing_signed(node_a_id, &as_closing);
+	let bs_events = nodes[1].node.get_and_clear_pending_msg_events();
+	assert_eq!(bs_events.len(), 1);
+	let bs_closing = match &bs_events[0] {
+		MessageSendEvent::SendClosingSigned { msg, .. } => msg.clone(),
+		ev => panic!("B refused a closing fee inside both ranges: {:?}", ev),
+	};
+	assert_eq!(bs_closing.fee_satoshis, as_range.max_fee_satoshis);
+	assert_eq!(bs_closing.fee_range.as_ref().unwrap().min_fee_satoshis, as_range.max_fee_satoshis);
+
+	nodes[0].node.handle_closing_signed(node_b_id, &bs_closing);
+	let (_, as_closing_2) = get_closing_signed_broadcast(&nodes[0], node_b_id);
+	nodes[1].node.handle_closing_signed(node_a_id, &as_closing_2.unwrap());
+	let (_, none_b) = get_closing_signed_broadcast(&nodes[1], node_a_id);
+	assert!(none_b.is_none());
+	let tx_a = nodes[0].tx_broadcaster.txn_broadcasted.lock().unwrap().remove(0);
+	let tx_b = nodes[1].tx_broadcaster.txn_broadcasted.lock().unwrap().remove(0);
+	assert_eq!(tx_a, tx_b);
+	lightning::check_spends!(tx_a, chan.3);
+	let mut values: Vec<u64> = tx_a.output.iter().map(|o| o.value.to_sat()).collect();
+	values.sort();
+	assert_eq!(values, vec![10_000, 90_000 - as_range.max_fee_satoshis]);
+	check_closed_event(&nodes[0], 1, ClosureReason::LocallyInitiatedCooperativeClosure, &[node_b_id], 100_000);
+	check_closed_event(&nodes[1], 1, ClosureReason::CounterpartyInitiatedCooperativeClosure, &[node_a_id], 100_000);
+
+	for n in nodes.iter() {
+		n.node.get_and_clear_pending_msg_events();
+		n.node.get_and_clear_pending_events();
+		n.chain_monitor.added_monitors.lock().unwrap().clear();
+		n.tx_broadcaster.txn_broadcast();
+	}
+	core::mem::forget(nodes);
+	String::from("1")
+}
+
+/// closing_fee_range_battery: closing_fee_touch_probe, a panic counted as a failure. Output `<failed> <run>`.
+fn closing_fee_range_battery(_a: &mut Vec<i128>) -> String {
+	match catch_unwind(AssertUnwindSafe(|| closing_fee_touch_probe(&mut vec![]))) {
+		Ok(v) if v == "1" => String::from("0 1"),
+		_ => String::from("1 1"),
+	}
+}
+
+/// late_preimage_reorg_battery: preimage_after_conf_reorg_probe over commitment kinds (the counterparty's / our own), delays
+/// k before the preimage arrives (incl. past ANTI_REORG_DELAY) and reorg depths d: the claim must be tracked once the
+/// preimage is known, must survive a reorg iff the commitment's block survives it (d <= k), and must then still be
+/// there when the chain grows again. Output `<cases that misbehaved> <cases>`.
+fn late_preimage_reorg_battery(_a: &mut Vec<i128>) -> String {
+	let (mut bad, mut total) = (0u32, 0u32);
+	for own in 0..2i128 {
+		for (k, d) in [(0i128, 0i128), (1, 1), (2, 1), (2, 2), (2, 3), (3, 3), (5, 1), (5, 5), (6, 1), (8, 1), (8, 3)] {
+			total += 1;
+			let survive = d <= k;
+			let want = if d == 0 { String::from("1 1 1") } else if survive { String::from("1 1 1") } else { String::from("1 0") };
+			let mut args = if survive { vec![k, d, own, 2] } else { vec![k, d, own] };
+			match catch_unwind(AssertUnwindSafe(|| preimage_after_conf_reorg_probe(&mut args))) {
+				Ok(v) if v == want => {},
+				other => {
+					bad += 1;
+					if std::env::var("ORACLE_DEBUG").is_ok() {
+						eprintln!("late_preimage_reorg_battery: own {} k {} d {}: {:?} (wanted {})", own, k, d, other.ok(), want);
+					}
+				},
+			}
+		}
+	}
+	format!("{} {}", bad, total)
+}
+
 /// monitor_update_battery: scenarios 1-3 of monitor_update_probe, monitor_update_deferred_probe and monitor_update_blocked_probe. Output: `<scenarios that failed or panicked> <scenarios run>`.
 fn monitor_update_battery(_a: &mut Vec<i128>) -> String {
 	let (mut bad, mut total) = (0u32, 0u32);
@@ -2438,6 +2566,9 @@ fn main() {
 			"payment_outcome_battery" => payment_outcome_battery(&mut args),
 			"mpp_outcome_probe" => mpp_outcome_probe(&mut args),
 			"payment_restart_probe" => payment_restart_probe(&mut args),
+			"late_preimage_reorg_battery" => late_preimage_reorg_battery(&mut args),
+			"closing_fee_touch_probe" => closing_fee_touch_probe(&mut args),
+			"closing_fee_range_battery" => closing_fee_range_battery(&mut args),
 			"phantom_fulfill_probe" => phantom_fulfill_probe(&mut args),
 			"phantom_fulfill_battery" => phantom_fulfill_battery(&mut args),
 			"restart_forward_probe" => restart_forward_probe(&mut args),
